@@ -86,11 +86,15 @@ func c49Decode(m *jsonrpcMessage) c49Msg {
 }
 
 func (c *c49Conn) writeJSON(ctx context.Context, msg *jsonrpcMessage, isError bool) error {
+	// a write to the connection is a visible operation (real codecs take an encoder lock and do I/O here):
+	// it is a scheduling point, so that "decide under the lock, write after releasing it" windows are explored
+	vsched.Yield("conn.writeJSON")
 	c.writes = append(c.writes, c49Write{msgs: []c49Msg{c49Decode(msg)}})
 	return nil
 }
 
 func (c *c49Conn) writeJSONBatch(ctx context.Context, msgs []*jsonrpcMessage, isError bool) error {
+	vsched.Yield("conn.writeJSONBatch")
 	w := c49Write{batch: true}
 	for _, m := range msgs {
 		w.msgs = append(w.msgs, c49Decode(m))
